@@ -340,6 +340,19 @@ func (c *octx) call(s ostate, call *ssa.Call) ostate {
 		if c.e.Sx.MayWrite(cal, elemKey) {
 			s = c.killAll(s)
 		}
+		// a helper that sorts its slice parameter in place on every path
+		// (sortByScoreDesc(results)) is a sort of the argument
+		for _, pi := range c.e.SortsParamInPlace(cal, c.cfg) {
+			if pi < len(args) {
+				x := ssau.Strip(args[pi])
+				s[x] = true
+				if u, ok := x.(*ssa.UnOp); ok && u.Op == token.MUL {
+					if cell := cellOf(u.X); cell != nil {
+						s[cell] = true
+					}
+				}
+			}
+		}
 		for _, m := range marks {
 			if !m.ok {
 				continue
@@ -549,6 +562,25 @@ func (c *octx) builderSorted(l ssau.RangeLoop, p *ssa.Phi, st ostate) bool {
 	if allConst {
 		return true
 	}
+	// (a') one loop-invariant score for every element (a parameter or a value
+	// computed before the loop): all scores are equal, any order is sorted
+	var inv ssa.Value
+	allSame := true
+	for _, ap := range appends {
+		sc := scoreOf(ap)
+		if sc == nil || (inv != nil && sc != inv) {
+			allSame = false
+			break
+		}
+		inv = sc
+		if in, ok := sc.(ssa.Instruction); ok && in.Block() != nil && (in.Block() == l.Header || l.InLoop(in.Block())) {
+			allSame = false
+			break
+		}
+	}
+	if allSame && inv != nil {
+		return true
+	}
 	// (b) monotone map over a contract-sorted source
 	if l.IsMap || l.Over == nil {
 		return false
@@ -741,6 +773,66 @@ func (e *Engine) OrderSummaryOf(fn *ssa.Function, idx int, cfg OrderConfig) Orde
 	}
 	e.ordSum[k] = s
 	return s
+}
+
+// SortsParamInPlace lists the parameters of fn (element-slice typed) that are
+// sorted by descending score at every return of fn, whatever they were at
+// entry: fn is a sorting helper for them.
+func (e *Engine) SortsParamInPlace(fn *ssa.Function, cfg OrderConfig) []int {
+	if r, ok := e.sortsParam[fn]; ok {
+		return r
+	}
+	if e.ordBusy[fn] || fn.Blocks == nil {
+		return nil
+	}
+	e.ordBusy[fn] = true
+	defer delete(e.ordBusy, fn)
+	c := &octx{e: e, cfg: cfg, fn: fn, wantAt: map[ssa.Instruction]bool{}, atInstr: map[ssa.Instruction]ostate{}, retSorted: map[*ssa.Return]bool{}}
+	rets := ssau.ReturnsOf(fn)
+	for _, r := range rets {
+		c.wantAt[r] = true
+	}
+	var out []int
+	has := false
+	for _, p := range fn.Params {
+		if c.isElemSlice(p.Type()) {
+			has = true
+		}
+	}
+	if has && len(rets) > 0 {
+		c.run()
+		for i, p := range fn.Params {
+			if !c.isElemSlice(p.Type()) {
+				continue
+			}
+			// a parameter captured by the comparator closure lives in a cell
+			var cell *ssa.Alloc
+			if refs := p.Referrers(); refs != nil {
+				for _, ref := range *refs {
+					if st, ok := ref.(*ssa.Store); ok && st.Val == ssa.Value(p) {
+						if al, ok := st.Addr.(*ssa.Alloc); ok && spilledParam(al) == p {
+							cell = al
+						}
+					}
+				}
+			}
+			all := true
+			for _, r := range rets {
+				st, ok := c.atInstr[r]
+				if !ok || !(c.sorted(st, p) || (cell != nil && st[cell])) {
+					all = false
+				}
+			}
+			if all {
+				out = append(out, i)
+			}
+		}
+	}
+	if e.sortsParam == nil {
+		e.sortsParam = map[*ssa.Function][]int{}
+	}
+	e.sortsParam[fn] = out
+	return out
 }
 
 // ReturnsSorted runs the analysis on fn and reports, per return, whether the
